@@ -72,7 +72,84 @@ def expected(kind, v):
     return a, b, c
 
 
+_BARRIER = [None]
+
+
+class SlowPickle:
+    """a value whose serialisation takes a while: its `__reduce__` waits for the sibling value to be mid-write too"""
+
+    def __init__(self, tag):
+        self.tag = tag
+
+    def __reduce__(self):
+        import threading
+        try:
+            _BARRIER[0].wait(timeout=3)
+        except threading.BrokenBarrierError:
+            pass
+        return (str, (self.tag,))
+
+
+def overlap_cases(only=None):
+    """Sibling file stores - same directory, same stem, different extensions (`features.train` / `features.test`), str and
+    pathlib paths - written at OVERLAPPING times by two workers (a barrier inside the serialisation of both values).  Whether
+    that run succeeds or fails, the next run must return, and the files must hold, each store's own value."""
+    import pathlib
+    import threading
+    import uberjob
+    from uberjob.stores import PickleFileStore
+    viol, done = [], 0
+    for pathlib_paths in (False, True):
+        for names in (("features.train", "features.test"), ("part.a.bin", "part.b.bin"), ("x", "x.bak")):
+            case = [pathlib_paths, list(names)]
+            if only is not None and case != only:
+                continue
+            d = tempfile.mkdtemp(prefix="c08o_")
+            try:
+                mk = (lambda n: pathlib.Path(d) / n) if pathlib_paths else (lambda n: os.path.join(d, n))
+
+                def build2():
+                    plan, reg = uberjob.Plan(), uberjob.Registry()
+                    a = plan.call(lambda: SlowPickle("A:" + names[0]))
+                    b = plan.call(lambda: SlowPickle("B:" + names[1]))
+                    reg.add(a, PickleFileStore(mk(names[0])))
+                    reg.add(b, PickleFileStore(mk(names[1])))
+                    return plan, reg, plan.call(lambda x, y: [x, y], a, b)
+
+                _BARRIER[0] = threading.Barrier(2)
+                plan, reg, out = build2()
+                first = "returned"
+                try:
+                    uberjob.run(plan, registry=reg, output=out, progress=None, max_workers=2)
+                except Exception as e:      # noqa: BLE001 - a failing run is allowed; what it leaves behind is judged below
+                    first = "failed with %s" % type(e).__name__
+                _BARRIER[0] = threading.Barrier(1)
+                plan, reg, out = build2()
+                done += 2
+                want = ["A:" + names[0], "B:" + names[1]]
+                try:
+                    got = uberjob.run(plan, registry=reg, output=out, progress=None, max_workers=2)
+                    held = [PickleFileStore(mk(n)).read() for n in names]
+                    what = None if (got == want and held == want) else (
+                        f"the run after it returned {got!r}, the files hold {held!r}; each store's own value: {want!r}")
+                except Exception as e:      # noqa: BLE001
+                    what = f"the run after it failed: {type(e).__name__}: {str(e)[:100]}"
+                left = sorted(set(os.listdir(d)) - set(names))
+                if what is None and left:
+                    what = f"files left behind next to the stores: {left}"
+                if what:
+                    viol.append({"property": "C08", "what": f"PickleFileStore at {'pathlib' if pathlib_paths else 'str'} paths {list(names)} written "
+                                 f"at overlapping times by two workers (that run {first}): {what}", "replay_fn": "overlap", "case": case})
+                    return viol, done
+            finally:
+                shutil.rmtree(d, ignore_errors=True)
+    return viol, done
+
+
 def files_explore(ctx, replay=None):
+    if replay is not None and replay.get("replay_fn") == "overlap":
+        v, _ = overlap_cases(only=replay["case"])
+        return v[0]["what"] if v else None
     import uberjob
     rng = random.Random(ctx.seed * 3 + 7)
     verif = os.path.dirname(os.path.dirname(os.path.abspath(__file__)))
@@ -137,4 +214,9 @@ def files_explore(ctx, replay=None):
             break
     if replay is not None:
         return None
-    return {"violations": viol, "disagreements": [], "coverage": {"file_store_kills": kills, "file_store_kinds": len(cases)}}
+    n_overlap = 0
+    if not viol:
+        v, n_overlap = overlap_cases()
+        viol += v
+    return {"violations": viol, "disagreements": [], "coverage": {"file_store_kills": kills, "file_store_kinds": len(cases),
+                                                                  "overlapping_sibling_writes": n_overlap}}
